@@ -44,6 +44,7 @@ type accWorld struct {
 	cb     int64
 	rng    *rand.Rand
 	nconns int
+	seed   int64
 }
 
 type accConn struct {
@@ -62,7 +63,7 @@ type accConn struct {
 }
 
 func newAccWorld(seed int64, k int) (*accWorld, error) {
-	w := &accWorld{rng: rngFor(seed, 1000+k)}
+	w := &accWorld{rng: rngFor(seed, 1000+k), seed: seed}
 	dir := mkTempDir("hcv-access")
 	w.sw = accessory.NewSwitch(accessory.Info{Name: "Gate", SerialNumber: canary})
 	w.sw.Switch.On.OnValueRemoteUpdate(func(bool) { atomic.AddInt64(&w.cb, 1) })
@@ -259,8 +260,8 @@ func (cs *accConn) exchange(req []byte, cipher bool) reply {
 		case cipher && !m.Enc && m.Status == 400:
 			r.class = "BadRequest"
 			cs.dead = true
-		case m.Status >= 400:
-			r.class = "Refused"
+		case m.Status >= 300:
+			r.class = "Refused" // redirects (path cleaning) serve nothing
 		default:
 			r.class = "Served"
 		}
@@ -368,6 +369,7 @@ func (w *accWorld) doStep(conns map[string]*accConn, st accStep) (J, error) {
 		if err != nil {
 			return nil, err
 		}
+		req, out["tf"] = w.targetForm(cs, req)
 		r = cs.exchange(req, st.F == "cipher")
 	default:
 		return nil, fmt.Errorf("unknown action %q", st.A)
@@ -386,7 +388,7 @@ func (w *accWorld) checkV2(vc *ref.VerifyClient) bool {
 
 func (w *accWorld) finishBody(conns map[string]*accConn, cs *accConn, kind string) ([]byte, error) {
 	rnd := func(n int) []byte { b := make([]byte, n); w.rng.Read(b); return b }
-	needs := map[string]bool{"genuine": true, "wrongkey": true, "stale": true, "reordered": true, "unknown": true, "self": true, "badtlv": true}
+	needs := map[string]bool{"genuine": true, "wrongkey": true, "stale": true, "reordered": true, "unknown": true, "self": true, "reflect": true, "badtlv": true}
 	if needs[kind] && cs.cur == nil {
 		return nil, fmt.Errorf("VFinish(%s) on %s without an accepted start: not concretisable", kind, cs.name)
 	}
@@ -433,6 +435,12 @@ func (w *accWorld) finishBody(conns map[string]*accConn, cs *accConn, kind strin
 		return ref.WrapV3(key, sign(cs.id.Priv, "nobody-"+cs.name, cs.cur.Eph.Pub[:], cs.cur.AccPub)).Encode(), nil
 	case "self":
 		return ref.WrapV3(key, sign(cs.id.Priv, w.accID, cs.cur.Eph.Pub[:], cs.cur.AccPub)).Encode(), nil
+	case "reflect":
+		// the accessory's own identifier with the accessory's own signature from its start response
+		var t ref.TLV
+		t.Add(ref.TagIdentifier, []byte(cs.cur.AccessoryID))
+		t.Add(ref.TagSignature, cs.cur.AccessorySig)
+		return ref.WrapV3(key, t.Encode()).Encode(), nil
 	case "badseal":
 		inner := sign(cs.id.Priv, w.legit.Name, rnd(32), rnd(32))
 		return ref.WrapV3(rnd(32), inner).Encode(), nil
@@ -480,6 +488,34 @@ func (w *accWorld) psNoise(cs *accConn, kind string) reply {
 		return cs.exchange(tlvReq("/pair-setup", ref.WrapM5(zero, ref.SubTLV5(nil, cs.id).Encode())), false)
 	}
 	return reply{http: -1, state: -1, terr: -1, class: "Closed"}
+}
+
+// targetForm rewrites the request target of a request an unverified peer sends: origin-form as it is, absolute-form,
+// a percent-encoded path letter, a dot segment, a doubled slash. All of them name the same resource.
+func (w *accWorld) targetForm(cs *accConn, req []byte) ([]byte, string) {
+	if cs.expectEnc {
+		return req, "origin"
+	}
+	sp1 := bytes.IndexByte(req, ' ')
+	sp2 := sp1 + 1 + bytes.IndexByte(req[sp1+1:], ' ')
+	target := string(req[sp1+1 : sp2])
+	form := []string{"origin", "origin", "absolute", "pctenc", "dotseg", "dblslash", "absolute-pctenc"}[w.rng.Intn(7)]
+	pct := func(t string) string { return "/" + fmt.Sprintf("%%%02x", t[1]) + t[2:] }
+	switch form {
+	case "absolute":
+		target = "http://hc.local" + target
+	case "pctenc":
+		target = pct(target)
+	case "dotseg":
+		target = "/." + target
+	case "dblslash":
+		target = "/" + target
+	case "absolute-pctenc":
+		target = "http://hc.local" + pct(target)
+	}
+	out := append([]byte{}, req[:sp1+1]...)
+	out = append(out, target...)
+	return append(out, req[sp2:]...), form
 }
 
 func (w *accWorld) request(cs *accConn, op string) ([]byte, error) {
@@ -546,6 +582,7 @@ func (w *accWorld) probe(cs *accConn) J {
 }
 
 func (w *accWorld) runWord(b Beh, tr *Tracer) error {
+	w.rng = rngFor(w.seed, 1000000+b.ID) // every random choice of a case depends on (seed, case id) only
 	if err := w.baseline(); err != nil {
 		return err
 	}
